@@ -366,6 +366,15 @@ class Specs(object):
                 pkg = rest
             elif kw == 'func':
                 name = rest.split()[0]
+                mr_ = re.match(r'^(\S+)\s+region(#\d+)?\s+@"(.*)"\s*$', rest)
+                if mr_:
+                    # only the part of <name> that starts at the statement quoting this source text is verified,
+                    # from an arbitrary state that satisfies the requires clauses (see Verifier.region_entry);
+                    # `region#2`, `region#3`: further regions of the same function, each a contract of its own
+                    rest = name
+                    if mr_.group(2):
+                        name = name + '@@' + mr_.group(2)[1:]
+                        rest = name
                 mc_ = re.match(r'^(\S+)\s+closure\s+@"(.*)"\s*$', rest)
                 if mc_:
                     # a function literal inside <name>, identified by a piece of its source text (the compiler's
@@ -381,6 +390,8 @@ class Specs(object):
                 curloop = None
                 if 'trusted' in rest.split()[1:]:
                     cur.trusted = True
+                if mr_:
+                    cur.opts['region'] = [mr_.group(3)]
             elif kw == 'lemma':
                 mm = re.match(r'(\w+)\s*\((.*?)\)\s*(.*)$', rest)
                 cur = Lemma(mm.group(1), parse_params(mm.group(2)), src)
